@@ -190,7 +190,9 @@ def run(ctx):
         "by the shape()-level hygiene search over corpus fonts (partial, as DESIGN.md §5 C04 says)",
     ]
     ctx.regen()
-    ctx.prove(MODULE)
+    if not ctx.prove(MODULE):
+        import _pairflag as PFn
+        PFn.name_failed_theorems(ctx)
     shim = vlib.build_harness()
     gf, bf = F.constants(shim)
     b = dict(bf)
@@ -211,6 +213,15 @@ def run(ctx):
     import _gposflag as GF
     ctx.correspond("gpos-pair-flags", lines=GF.pair_lines(ctx.rng("gpos-flags"), ctx.budget(4000, 150000), pc),
                    classify=GF.classify_pair, canon=GF.canon)
+    # the same with the real skipping iterator (PairFlag.lean; theorems C04_pairpos_fail_flags_inspected,
+    # C04_kerx_simple_miss_flags_inspected, C04_kern_whole_buffer_concat): which glyph a declining PairPos / kerx pair inspected
+    import _pairflag as PF
+    rk = ctx.rng("pair-span")
+    kpl = PF.kerx_plans(shim)
+    ctx.correspond("gpos-pair-iter", lines=PF.pair_lines(rk, ctx.budget(4000, 150000), pc), classify=PF.classify_pair, canon=GF.canon)
+    ctx.correspond("kerx-simple-flags", lines=PF.kx_lines(rk, ctx.budget(2000, 60000), pc, kpl), classify=PF.classify_k, canon=GF.canon)
+    ctx.correspond("kern-machine-flags", lines=PF.mk_lines(rk, ctx.budget(2000, 60000), pc), classify=PF.classify_k, canon=GF.canon)
+    PF.hook_search(ctx, shim, ctx.rng("pair-span-search"), ctx.budget(3000, 100000), pc, kpl)
     hook_search(ctx, shim, ctx.rng("hook"), ctx.budget(20000, 300000), pc, pt)
     C03mod.carry_search(ctx, shim, ctx.rng("carry-exact"), ctx.budget(10000, 200000), pc, pt)
     shape_hygiene(ctx, shim, ctx.rng("hygiene"), ctx.budget(48, 400), pc, pt)
@@ -244,7 +255,7 @@ def replay(ctx, rp):
         print("reassembled:", F.fmt_glyphs(o.get("recon") or []))
         print("difference:", o.get("diff"))
         return 1 if o["status"] in ("DIFF", "piecefail", "noresult") else 0
-    if rp.get("stream") == "carry-exact":
+    if rp.get("stream") in ("carry-exact", "kern-span", "kerx-span", "pairpos-miss-span"):
         return C03mod.replay(ctx, rp)
     if rp.get("stream") == "flags-hook-hygiene":
         b = dict(F.constants(shim)[1])
